@@ -79,6 +79,12 @@ R = [
     ("result_arrays_copied", ["C08", "C12", "C11"], [
         ("pygradflow/solver.py", "        (x, y, d) = self.transform.restore_sol(x, y, d)\n\n        result = SolverResult(", "        (x, y, d) = self.transform.restore_sol(x, y, d)\n        x, y, d = np.array(x, copy=True), np.array(y, copy=True), np.array(d, copy=True)\n\n        result = SolverResult("),
     ]),
+    ("scipy_routines_imported_by_name", ["C07"], [
+        ("pygradflow/linear_solver/gmres_solver.py", "import numpy as np\nimport scipy as sp\n", "import numpy as np\nimport scipy as sp\nfrom scipy.sparse.linalg import gmres as _gmres\n"),
+        ("pygradflow/linear_solver/gmres_solver.py", "        result = sp.sparse.linalg.gmres(mat, rhs, maxiter=n, x0=initial_sol, atol=atol)", "        result = _gmres(mat, rhs, maxiter=n, x0=initial_sol, atol=atol)"),
+        ("pygradflow/linear_solver/lu_solver.py", "import scipy as sp\n", "import scipy as sp\nfrom scipy.sparse.linalg import splu as _splu\n"),
+        ("pygradflow/linear_solver/lu_solver.py", "            self.solver = sp.sparse.linalg.splu(mat)", "            self.solver = _splu(mat)"),
+    ]),
     ("linear_solver_import_style", ["C07", "C09"], [
         ("pygradflow/linear_solver/__init__.py", "    if solver_type == LinearSolverType.LU:\n        from .lu_solver import LUSolver\n\n        return LUSolver(mat, symmetric=symmetric)",
          "    if solver_type == LinearSolverType.LU:\n        from pygradflow.linear_solver import lu_solver as _lu\n\n        return _lu.LUSolver(mat, symmetric=symmetric)"),
